@@ -56,7 +56,8 @@ def make_chart():
 
 SC = make_chart()
 TRACE_CODES = [Interpreter._queue_event.__code__, Interpreter._select_event.__code__,
-               Interpreter._compute_steps.__code__, Interpreter.execute_once.__code__,
+               Interpreter._compute_steps.__code__,
+               getattr(Interpreter.execute_once, '__wrapped__', Interpreter.execute_once).__code__,
                AsyncRunner._run.__code__, AsyncRunner.execute.__code__]
 
 
